@@ -768,8 +768,10 @@ func (h *harness) evaluate(res *Result) {
 
 	if sc.Version == "v0" || sc.Version == "v1" {
 		before := len(res.Findings)
-		h.pairOracles(evs, handSeq, add)
+		mr, md := h.pairOracles(evs, handSeq, add)
 		res.Counts["pair_oracle_findings"] = len(res.Findings) - before
+		res.Counts["max.honest_validation_drops_in_a_row_without_liar_removal(limit 4)"] = mr
+		res.Counts["max.deliveries_of_next_block_minus_3x_liar_removals(limit 3)"] = md
 	}
 
 	// O6 and O7 are argued from the v0 pool's code paths and hold below its 30 s request retry and 15 s peer timeout
@@ -829,7 +831,8 @@ func (h *harness) evaluate(res *Result) {
 			// can end the sync far below the tip with an honest peer still connected and serving (O6).
 			for _, p := range res.Peers {
 				spec := h.specOf(p.Name)
-				if p.Honest && len(p.Removed) == 0 && p.ConnectedAtHand && p.Requests > 0 && H < spec.Height-2 {
+				// (not on the simulated slow network: v2 prunes peers below its minimum receive rate by design)
+				if sc.MaxPerWindow == 0 && p.Honest && len(p.Removed) == 0 && p.ConnectedAtHand && p.Requests > 0 && H < spec.Height-2 {
 					add("v0-handover-before-tip", "hand-over at height %d although honest peer %s (status height %d) had been serving requests, was never disconnected and is still connected", H, p.Name, spec.Height)
 					break
 				}
@@ -893,7 +896,7 @@ func isValidationDrop(version, reason string) bool {
 //	    re-evaluation can cost two more honest peers, never four);
 //	(c) stuck: honest peers delivered the canonical block s+1 more than 3*r+3 times while the store
 //	    stayed at s and only r lying peers were removed meanwhile.
-func (h *harness) pairOracles(evs []Event, handSeq int, add func(key, format string, a ...interface{})) {
+func (h *harness) pairOracles(evs []Event, handSeq int, add func(key, format string, a ...interface{})) (maxRun, maxDeliveries int) {
 	sc, w := h.sc, h.w
 	s := w.first - 1
 	if sc.NodeStart > 0 {
@@ -936,6 +939,9 @@ func (h *harness) pairOracles(evs []Event, handSeq int, add func(key, format str
 				holding[e.Who][e.H] = e.Seq
 			case spec.Honest && e.Info == "canonical" && e.H == s+1:
 				deliveries++
+				if deliveries-3*liarRemovals > maxDeliveries {
+					maxDeliveries = deliveries - 3*liarRemovals
+				}
 				if deliveries > 3*liarRemovals+3 {
 					once("v0-sync-stuck-with-honest-peer-available", "honest peers delivered the canonical block %d to the node %d times while its store stayed at height %d and only %d lying peers were removed meanwhile: the sync does not advance although an honest peer serves the next block", s+1, deliveries, s, liarRemovals)
 				}
@@ -952,6 +958,9 @@ func (h *harness) pairOracles(evs []Event, handSeq int, add func(key, format str
 				}
 			case isValidationDrop(sc.Version, e.Info):
 				run++
+				if run > maxRun {
+					maxRun = run
+				}
 				if run >= 5 {
 					once("v0-honest-peer-dropped-for-others-bad-block", "%d validation drops of honest peers in a row at store height %d (the last one: %s) without a lying peer being removed in between", run, s, e.Who)
 				}
@@ -973,6 +982,7 @@ func (h *harness) pairOracles(evs []Event, handSeq int, add func(key, format str
 			}
 		}
 	}
+	return
 }
 
 func (h *harness) specOf(name string) *PeerSpec {
